@@ -1025,13 +1025,14 @@ Qed.
 (* whatever the cache holds when a request starts (partially cached meta tiles, with or without their main tile,
    left behind by other configurations or by removals), every requested valid tile is either already cached or is
    handed to a store call: the re-check under the lock looks at ALL tiles of the meta tile *)
-Lemma plan_with_cache_produces m has_meta minimize bulk cached (tiles : list coord) z plan :
+Lemma plan_with_caches_produces m has_meta minimize bulk cached locked (tiles : list coord) z plan :
   mwf m -> (forall c, In c tiles -> valid_tile m c /\ snd c = z) ->
-  plan_with_cache m has_meta minimize bulk cached tiles = Some plan ->
-  forall c, In c tiles -> In c cached \/ In c (flat_map snd plan).
+  plan_with_caches m has_meta minimize bulk cached locked tiles = Some plan ->
+  forall c, In c tiles -> In c cached \/ In c locked \/ In c (flat_map snd plan).
 Proof.
-  intros Hm Hall Hplan c Hc. unfold plan_with_cache in Hplan.
+  intros Hm Hall Hplan c Hc. unfold plan_with_caches in Hplan.
   destruct (coord_mem c cached) eqn:Ec; [left; apply coord_mem_In; exact Ec|right].
+  destruct (coord_mem c locked) eqn:El; [left; apply coord_mem_In; exact El|right].
   set (unc := filter (fun c => negb (coord_mem c cached)) tiles) in *.
   assert (Hcu : In c unc) by (apply filter_In; split; [exact Hc|rewrite Ec; reflexivity]).
   assert (Hallu : forall c', In c' unc -> valid_tile m c' /\ snd c' = z)
@@ -1043,8 +1044,17 @@ Proof.
   apply in_flat_map in Hin. destruct Hin as (st & Hst & Hcst).
   apply in_flat_map. exists st. split; [|exact Hcst].
   apply filter_In. split; [exact Hst|].
-  unfold all_cached. destruct (forallb (fun c0 => coord_mem c0 cached) (snd st)) eqn:Ef; [|reflexivity].
+  unfold all_cached. destruct (forallb (fun c0 => coord_mem c0 locked) (snd st)) eqn:Ef; [|reflexivity].
   rewrite forallb_forall in Ef. specialize (Ef c Hcst). congruence.
+Qed.
+
+Lemma plan_with_cache_produces m has_meta minimize bulk cached (tiles : list coord) z plan :
+  mwf m -> (forall c, In c tiles -> valid_tile m c /\ snd c = z) ->
+  plan_with_cache m has_meta minimize bulk cached tiles = Some plan ->
+  forall c, In c tiles -> In c cached \/ In c (flat_map snd plan).
+Proof.
+  intros Hm Hall Hplan c Hc.
+  destruct (plan_with_caches_produces m has_meta minimize bulk cached cached tiles z plan Hm Hall Hplan c Hc) as [H|[H|H]]; auto.
 Qed.
 
 Lemma dedup_meta_In m tiles : forall seen mt,
@@ -1224,3 +1234,171 @@ Example stored_pixel_example :
   In (Some (8, 8, 3), (10, 1)) (mt_pattern (meta_tile ex_m 8 8 3)) /\
   tile_pixel_src (10, 1) (256, 256) (mt_size (meta_tile ex_m 8 8 3)) 255 255 = Some (265, 256).
 Proof. vm_compute. split; [right; right; left; reflexivity|reflexivity]. Qed.
+
+(* ---------------------------------------------------------------- pixel alignment of the request-minimising meta tile *)
+
+(* the request-minimising meta tile, spelled out: the block is the bounding range of the requested tiles *)
+Lemma minimal_meta_structure m (tiles : list coord) z :
+  mwf m -> tiles <> [] -> (forall x y l, In (x, y, l) tiles -> l = z /\ 0 <= x /\ 0 <= y) ->
+  exists minx maxx miny maxy bb b0 b1 b2 b3 pat,
+    0 <= minx <= maxx /\ 0 <= miny <= maxy /\
+    (forall x y l, In (x, y, l) tiles -> minx <= x <= maxx /\ miny <= y <= maxy) /\
+    buffered_bbox m (tiles_bbox (mg_grid m) (minx, miny, z) (maxx, maxy, z)) z true = (bb, (b0, b1, b2, b3)) /\
+    minimal_meta_tile m tiles = Some (mkMT bb (size_from_bbox m bb z) pat (1 + maxx - minx, 1 + maxy - miny)) /\
+    (exists full gs, full_tile_list m tiles = Some (full, gs, ((minx, miny, z), (maxx, maxy, z)))) /\
+    forall p, In p pat <->
+      exists i j, 0 <= i < 1 + maxy - miny /\ 0 <= j < 1 + maxx - minx /\
+        p = (Some (minx + j, (if ul (mg_grid m) then miny + i else maxy - i), z),
+             (j * tw (mg_grid m) + b0, i * th (mg_grid m) + b3)).
+Proof.
+  intros Hm Hne Hall. unfold minimal_meta_tile, full_tile_list.
+  destruct (rev tiles) as [|[[lx ly] lz] rest] eqn:Erev.
+  { exfalso. apply Hne. rewrite <- (rev_involutive tiles), Erev. reflexivity. }
+  assert (Hrev : forall x y l, In (x, y, l) ((lx, ly, lz) :: rest) -> l = z /\ 0 <= x /\ 0 <= y)
+    by (intros x y l H; apply (Hall x y l); apply (proj2 (@in_rev coord tiles (x, y, l))); rewrite Erev; exact H).
+  assert (Hmem : forall c, In c tiles -> In c ((lx, ly, lz) :: rest))
+    by (intros c H; apply (proj1 (@in_rev coord tiles c)) in H; rewrite Erev in H; exact H).
+  destruct (Hrev lx ly lz (or_introl eq_refl)) as (-> & Hlx & Hly).
+  change (fun acc t => let '(minx, maxx, miny, maxy) := acc in let '(x, y, _) := t in
+                       (Z.min minx x, Z.max maxx x, Z.min miny y, Z.max maxy y)) with minmax_step.
+  match goal with |- context [@fold_left ?A ?B minmax_step ?l ?a] =>
+    destruct (@fold_left A B minmax_step l a) as [[[minx maxx] miny] maxy] eqn:Efold end.
+  pose proof (fold_minmax_bounds_eq _ _ _ _ _ _ _ _ _ Efold) as (H1 & H2 & H3 & H4 & H5 & H6). cbv beta iota.
+  assert (Hpos : 0 <= minx /\ 0 <= miny).
+  { apply H6; [|lia|lia]. intros x y l Hin. apply in_rev in Hin.
+    destruct (Hrev x y l (or_intror Hin)) as (_ & ? & ?). lia. }
+  assert (Hin_all : forall x y l, In (x, y, l) tiles -> minx <= x <= maxx /\ miny <= y <= maxy).
+  { intros x y l Hin. destruct (Hall x y l Hin) as (-> & _).
+    apply Hmem in Hin. destruct Hin as [Hin|Hin]; [injection Hin as <- <-; lia|].
+    apply (H5 x y z). apply in_rev. rewrite rev_involutive. exact Hin. }
+  set (g := mg_grid m) in *.
+  set (xs := zrange minx maxx). set (ys := rows_from_top g miny maxy).
+  assert (Hlx' : Z.of_nat (length xs) = 1 + maxx - minx) by (unfold xs; rewrite zrange_length; lia).
+  assert (Hly' : Z.of_nat (length ys) = 1 + maxy - miny) by (unfold ys; rewrite rows_from_top_length; lia).
+  assert (Hn : forall i j, 0 <= i < 1 + maxy - miny -> 0 <= j < 1 + maxx - minx ->
+    nth (Z.to_nat (j + i * (1 + maxx - minx))) (create_tile_list xs ys z (maxx + 1, maxy + 1)) None =
+    Some (minx + j, (if ul g then miny + i else maxy - i), z)).
+  { intros i j Hi Hj. rewrite <- Hlx' at 1. rewrite create_tile_list_nth by lia. cbn [fst snd].
+    unfold xs, ys. rewrite zrange_nth by (rewrite zrange_length; lia). rewrite rows_from_top_nth by lia.
+    replace (minx + Z.of_nat (Z.to_nat j)) with (minx + j) by lia.
+    replace (Z.of_nat (Z.to_nat i)) with i by lia.
+    apply tile_or_none_valid; destruct (ul g); lia. }
+  destruct (create_tile_list xs ys z (maxx + 1, maxy + 1)) as [|first full'] eqn:Efull.
+  { exfalso. specialize (Hn 0 0 ltac:(lia) ltac:(lia)). cbn in Hn. discriminate Hn. }
+  assert (Hfirst : first = Some (minx, (if ul g then miny else maxy), z)).
+  { specialize (Hn 0 0 ltac:(lia) ltac:(lia)). cbn in Hn. rewrite Hn. destruct (ul g); repeat f_equal; lia. }
+  rewrite Hfirst. cbn [snd].
+  destruct (buffered_bbox m (tiles_bbox g (minx, miny, z) (maxx, maxy, z)) z true) as [bb [[[b0 b1] b2] b3]] eqn:Hbuf.
+  exists minx, maxx, miny, maxy, bb, b0, b1, b2, b3.
+  eexists. split; [lia|]. split; [lia|]. split; [exact Hin_all|]. split; [exact Hbuf|]. split; [reflexivity|]. split; [eexists; eexists; reflexivity|].
+  intros p. rewrite <- Hfirst. rewrite tiles_pattern_In.
+  split; intros (i & j & Hi & Hj & ->); exists i, j; (split; [exact Hi|split; [exact Hj|]]); rewrite Hn by assumption; reflexivity.
+Qed.
+
+(* limiting the buffered bbox of the request-minimising meta tile to the grid bbox changes nothing *)
+Definition no_buffer_cut_minimal (m : mgrid) (lo hi : coord) : Prop :=
+  buffered_bbox m (tiles_bbox (mg_grid m) lo hi) (snd lo) true = buffered_bbox m (tiles_bbox (mg_grid m) lo hi) (snd lo) false.
+
+(* minimal_pattern_pixel_aligned: pattern_pixel_aligned for the request-minimising meta tile.  When no buffer is
+   cut off, the requested size is exactly extent / resolution, every crop offset is the exact pixel distance of the
+   tile from the upper left corner of the requested bbox and the crop rectangle lies inside the image *)
+Lemma minimal_pattern_pixel_aligned_lemma m (tiles : list coord) z :
+  mwf m -> valid_level (mg_grid m) z = true ->
+  tiles <> [] -> (forall x y l, In (x, y, l) tiles -> l = z /\ 0 <= x /\ 0 <= y) ->
+  exists mt minx maxx miny maxy,
+    minimal_meta_tile m tiles = Some mt /\
+    (exists full gs, full_tile_list m tiles = Some (full, gs, ((minx, miny, z), (maxx, maxy, z)))) /\
+    (forall x y l, In (x, y, l) tiles -> minx <= x <= maxx /\ miny <= y <= maxy) /\
+    (forall x y l, In (x, y, l) tiles -> exists crop, In (Some (x, y, l), crop) (mt_pattern mt)) /\
+    (no_buffer_cut_minimal m (minx, miny, z) (maxx, maxy, z) ->
+     let r := res_at (mg_grid m) z in
+     let '(bx0, by0, bx1, by1) := mt_bbox mt in
+     (fst (mt_size mt) * r = bx1 - bx0 /\ snd (mt_size mt) * r = by1 - by0) /\
+     forall cx cy cz px py, In (Some (cx, cy, cz), (px, py)) (mt_pattern mt) ->
+       let '(tx0, ty0, tx1, ty1) := tile_bbox (mg_grid m) cx cy cz in
+       cz = z /\ px * r = tx0 - bx0 /\ py * r = by1 - ty1 /\ 0 <= px /\ 0 <= py /\
+       px + tw (mg_grid m) <= fst (mt_size mt) /\ py + th (mg_grid m) <= snd (mt_size mt)).
+Proof.
+  intros Hm Hv Hne Hall.
+  destruct (minimal_meta_structure m tiles z Hm Hne Hall)
+    as (minx & maxx & miny & maxy & bb & b0 & b1 & b2 & b3 & pat & Hx & Hy & Hin_all & Hbuf & Hmt & (full & gs & Hfull) & Hpat).
+  exists (mkMT bb (size_from_bbox m bb z) pat (1 + maxx - minx, 1 + maxy - miny)), minx, maxx, miny, maxy.
+  split; [exact Hmt|]. split; [exists full, gs; exact Hfull|]. split; [exact Hin_all|].
+  split.
+  { intros x y l Hin. destruct (Hall x y l Hin) as (-> & _). destruct (Hin_all x y z Hin) as (Hxx & Hyy).
+    cbn [mt_pattern]. set (i := if ul (mg_grid m) then y - miny else maxy - y).
+    exists ((x - minx) * tw (mg_grid m) + b0, i * th (mg_grid m) + b3). apply Hpat. exists i, (x - minx).
+    split; [unfold i; destruct (ul (mg_grid m)); lia|]. split; [lia|].
+    unfold i. destruct (ul (mg_grid m)); repeat f_equal; lia. }
+  intros Hcut. cbv zeta. cbn [mt_bbox mt_size mt_pattern].
+  unfold no_buffer_cut_minimal in Hcut. cbn [snd] in Hcut. rewrite Hbuf in Hcut.
+  set (sx := 1 + maxx - minx) in *. set (sy := 1 + maxy - miny) in *.
+  assert (Hblock : tiles_bbox (mg_grid m) (minx, miny, z) (maxx, maxy, z) = block_bbox (mg_grid m) minx miny sx sy z).
+  { replace maxx with (minx + sx - 1) by (unfold sx; lia). replace maxy with (miny + sy - 1) by (unfold sy; lia).
+    replace (1 + (minx + sx - 1) - minx) with sx by lia. replace (1 + (miny + sy - 1) - miny) with sy by lia.
+    apply tiles_bbox_block; [apply Hm|exact Hv|unfold sx; lia|unfold sy; lia]. }
+  rewrite Hblock in Hcut.
+  destruct (block_bbox (mg_grid m) minx miny sx sy z) as [[[ba bb_] bc] bd] eqn:Eblock.
+  assert (HB : 0 <= mbuf m) by apply Hm.
+  rewrite (buffered_false_eq m ba bb_ bc bd z HB) in Hcut. injection Hcut as -> -> -> -> ->.
+  pose proof (res_at_pos (mg_grid m) z (proj1 Hm) Hv) as Hr.
+  destruct Hm as ((_ & _ & Htw & Hth & _) & _).
+  set (g := mg_grid m) in *. set (r := res_at g z) in *. set (B := mbuf m) in *.
+  unfold block_bbox in Eblock. fold g r in Eblock.
+  assert (Hsx : 1 <= sx) by (unfold sx; lia). assert (Hsy : 1 <= sy) by (unfold sy; lia).
+  assert (Hsize : size_from_bbox m (ba - B * r, bb_ - B * r, bc + B * r, bd + B * r) z
+                  = (sx * tw g + 2 * B, sy * th g + 2 * B)).
+  { unfold size_from_bbox. fold g. fold r.
+    destruct (ul g); injection Eblock as <- <- <- <-; f_equal.
+    all: match goal with |- round_half_even ?n ?rr = ?k => replace n with (k * rr) by nia end.
+    all: apply round_half_even_exact; exact Hr. }
+  rewrite Hsize. cbn [fst snd]. split.
+  - destruct (ul g); injection Eblock as <- <- <- <-; nia.
+  - intros cx cy cz px py Hin. apply Hpat in Hin. destruct Hin as (i & j & Hi & Hj & Heq).
+    injection Heq as -> -> -> -> ->. unfold tile_bbox. fold g r.
+    fold sx in Hj. fold sy in Hi.
+    destruct (ul g); injection Eblock as <- <- <- <-; (split; [reflexivity|nia]).
+Qed.
+
+(* no buffer of the request-minimising meta tile of `tiles` is cut off at the grid border *)
+Definition minimal_no_cut (m : mgrid) (tiles : list coord) : Prop :=
+  match full_tile_list m tiles with
+  | Some (_, _, (lo, hi)) => no_buffer_cut_minimal m lo hi
+  | None => True
+  end.
+
+(* the property for minimize_meta_requests: the image stored for a requested tile cut out of the request-minimising
+   meta tile equals, pixel by pixel, the image of the tile fetched alone when no buffer is cut off *)
+Lemma minimal_equals_single_lemma m q (tiles : list coord) z cx cy j k :
+  mwf m -> valid_level (mg_grid m) z = true -> 0 < q ->
+  (forall x y l, In (x, y, l) tiles -> l = z /\ 0 <= x /\ 0 <= y) ->
+  In (cx, cy, z) tiles -> minimal_no_cut m tiles ->
+  0 <= j < tw (mg_grid m) -> 0 <= k < th (mg_grid m) ->
+  model_pixel m q (HowMinimal tiles) (cx, cy, z) j k = model_pixel m q HowSingle (cx, cy, z) j k.
+Proof.
+  intros Hm Hv Hq Hall Hc Hcut Hj Hk.
+  assert (Hne : tiles <> []) by (intros ->; destruct Hc).
+  destruct (minimal_pattern_pixel_aligned_lemma m tiles z Hm Hv Hne Hall)
+    as (mt & minx & maxx & miny & maxy & Hmt & (full & gs & Hfull) & _ & Hcov & Hal).
+  unfold minimal_no_cut in Hcut. rewrite Hfull in Hcut. specialize (Hal Hcut). cbv zeta in Hal.
+  unfold model_pixel. rewrite Hmt. unfold pixel_of_metatile.
+  destruct (Hcov cx cy z Hc) as (crop0 & Hin0). destruct (find_crop_complete _ _ _ Hin0) as ([px py] & Hf).
+  rewrite Hf. f_equal. apply find_crop_In in Hf.
+  destruct (mt_bbox mt) as [[[bx0 by0] bx1] by1]. destruct (mt_size mt) as [W H]. cbn [fst snd] in Hal.
+  destruct Hal as ((HW & HH) & Hal). specialize (Hal cx cy z px py Hf).
+  pose proof (tile_bbox_shape (mg_grid m) cx cy z) as Hshape.
+  destruct (tile_bbox (mg_grid m) cx cy z) as [[[tx0 ty0] tx1] ty1].
+  destruct Hal as (_ & Hpx & Hpy & Hpx0 & Hpy0 & HpxW & HpyH). destruct Hshape as (-> & ->).
+  pose proof (res_at_pos (mg_grid m) z (proj1 Hm) Hv) as Hr.
+  destruct Hm as ((_ & _ & Htw & Hth & _) & _).
+  unfold stored_pixel.
+  rewrite (tile_pixel_src_inside px py _ _ W H j k) by lia.
+  rewrite (tile_pixel_src_inside 0 0 _ _ (tw (mg_grid m)) (th (mg_grid m)) j k) by lia.
+  cbn [Z.add]. f_equal. f_equal.
+  - apply (sample_x_aligned (mg_grid m) q (res_at (mg_grid m) z)); lia.
+  - apply (sample_y_aligned (mg_grid m) q (res_at (mg_grid m) z)); lia.
+Qed.
+
+Example minimal_no_cut_example :
+  minimal_no_cut ex_m [(1, 1, 3); (3, 2, 3)] /\ ~ minimal_no_cut ex_m [(1, 1, 3); (8, 8, 3)].
+Proof. unfold minimal_no_cut, no_buffer_cut_minimal. vm_compute. split; [reflexivity|intros H; discriminate H]. Qed.
